@@ -299,12 +299,17 @@ pub fn run_y(line: &str) -> String {
         let r = std::panic::catch_unwind(std::panic::AssertUnwindSafe(|| {
             let mut seen: Vec<String> = vec![];
             let mut count = 0usize;
-            if fmt == "fa2" || fmt == "fq2" {
+            if fmt.len() == 3 {
+                // `..2`: the arithmetic of the default policy; `..3`: a policy whose threshold is reached after one
+                // doubling and that then grows in steps (a long record needs many requests)
+                let (pt, pl) = if fmt.ends_with('3') { (2 * cap, 1usize << 22) } else { (1usize << 23, usize::MAX) };
                 // the set-level API: `read_parallel` with a `ReusableReader` (as in the crate's documentation)
                 let mut tail = "END".to_string();
-                if fmt == "fa2" {
+                if fmt.starts_with("fa") {
                     use fasta::Record;
-                    let rdr = parallel::ReusableReader::new(fasta::Reader::with_capacity(std::io::Cursor::new(input), cap));
+                    let rdr = parallel::ReusableReader::new(
+                        fasta::Reader::with_capacity(std::io::Cursor::new(input), cap).set_policy(seq_io::policy::DoubleUntilLimited::new(pt, pl)),
+                    );
                     parallel::read_parallel(
                         rdr,
                         nt,
@@ -339,7 +344,9 @@ pub fn run_y(line: &str) -> String {
                     );
                 } else {
                     use fastq::Record;
-                    let rdr = parallel::ReusableReader::new(fastq::Reader::with_capacity(std::io::Cursor::new(input), cap));
+                    let rdr = parallel::ReusableReader::new(
+                        fastq::Reader::with_capacity(std::io::Cursor::new(input), cap).set_policy(seq_io::policy::DoubleUntilLimited::new(pt, pl)),
+                    );
                     parallel::read_parallel(
                         rdr,
                         nt,
